@@ -205,8 +205,8 @@ theorem send_allot_sim {env ienv : Env} (heq : EnvEq env ienv) (henv : EnvOK env
         | none => exact absurd (List.getLast?_eq_none_iff.mp hg) hne
         | some l => exact ⟨l, rfl⟩
       have hlc : l.asset = c := (k2 l (List.mem_of_getLast? hl)).1
-      have hall : fs.all (fun f => f.asset = l.asset) = true := by
-        rw [List.all_eq_true]; intro f hf; simp [(k2 f hf).1, hlc]
+      have hall : fs.all (fun f => f.asset = c) = true := by
+        rw [List.all_eq_true]; intro f hf; simp [(k2 f hf).1]
       have hnn : ∀ f ∈ fs, partsNonneg f.parts := fun f hf => (k2 f hf).2
       have hcn : partsNonneg (concatAll fs) := by
         simpa [concatAll] using concatAll_nonneg_aux fs [] partsNonneg_nil hnn
@@ -219,8 +219,8 @@ theorem send_allot_sim {env ienv : Env} (heq : EnvEq env ienv) (henv : EnvOK env
         rw [total_eq_length _ hcn, hcu, k4, allocate_sum_eq a amt hsum]
       have hmO : Machine.evalStmt Cfg.fixed env (.send mon (.allot items) dst) st =
           .ok { st1 with bal := repay st1.bal c rem } := by
-        simp only [Machine.evalStmt, hmon, hm, needAmt, hla, k1, assemble, hl, hall, if_true,
-          finishSend, hlc, d1]
+        simp only [Machine.evalStmt, hmon, hm, needAmt, hla, k1, assemble, hl, hlc, hall, if_true,
+          finishSend, d1]
       rw [hmO]
       have hiO : Interp.evalStmt ienv (.send mon (.allot items) dst) ist = .ok ist2 := by
         simp only [Interp.evalStmt, himon, if_neg hneg, hi, k5]
